@@ -22,6 +22,7 @@ type targetFn struct {
 	fn    *ssa.Function
 	modes Modes
 	note  string
+	spec  map[string]*ssa.Function
 }
 
 func (eng *Engine) resolveTargets(cfg *PropConfig) ([]targetFn, []string) {
@@ -38,10 +39,11 @@ func (eng *Engine) resolveTargets(cfg *PropConfig) ([]targetFn, []string) {
 			o.modes.Probes = o.modes.Probes || m.Probes
 			o.modes.NonNilParams = o.modes.NonNilParams || m.NonNilParams
 			o.modes.ReadOnly = o.modes.ReadOnly || m.ReadOnly
+			o.modes.NoAlias = o.modes.NoAlias || m.NoAlias
 			return
 		}
 		seen[fn] = len(out)
-		out = append(out, targetFn{fn, m, note})
+		out = append(out, targetFn{fn, m, note, nil})
 	}
 	for _, t := range cfg.Targets {
 		m := parseModes(t.Modes)
@@ -71,6 +73,19 @@ func (eng *Engine) resolveTargets(cfg *PropConfig) ([]targetFn, []string) {
 			fn := eng.fnByKey[t.Fn]
 			if fn == nil || len(fn.Blocks) == 0 {
 				errs = append(errs, fmt.Sprintf("target function %q not found in the source tree", t.Fn))
+				continue
+			}
+			if len(t.Specialize) > 0 {
+				for pname, keys := range t.Specialize {
+					for _, k := range keys {
+						f := eng.fnByKey[k]
+						if f == nil {
+							errs = append(errs, fmt.Sprintf("specialization function %q not found", k))
+							continue
+						}
+						out = append(out, targetFn{fn, m, t.Note, map[string]*ssa.Function{pname: f}})
+					}
+				}
 				continue
 			}
 			add(fn, m, t.Note)
@@ -235,15 +250,13 @@ func (eng *Engine) checkProperty(id, tier string, timeoutFlag, workers int, keep
 	}
 	eng.curPureDynamic = cfg.PureDynamic
 	targets, terrs := eng.resolveTargets(&cfg)
-	var fns []*ssa.Function
-	modes := map[*ssa.Function]Modes{}
+	var vjobs []vjob
 	for _, t := range targets {
-		fns = append(fns, t.fn)
 		m := t.modes
 		m.Probes = true
-		modes[t.fn] = m
+		vjobs = append(vjobs, vjob{t.fn, m, t.spec})
 	}
-	run := eng.runTargets(id+"-"+tier, fns, func(f *ssa.Function) Modes { return modes[f] }, time.Duration(to)*time.Second, workers, keep, verbose)
+	run := eng.runJobs(id+"-"+tier, vjobs, time.Duration(to)*time.Second, workers, keep, verbose)
 	if verbose {
 		run.print(false)
 	}
